@@ -194,4 +194,7 @@ pub fn run(rc: &mut RunCtx) {
     for l in ["complete_prefix_checked", "known_open_checked", "unknown_then_writes_then_known", "flush_with_open_masters"] {
         rc.require_label("streaming", l, 20_000);
     }
+    if !rc.quick() {
+        rc.run_fuzz(Some(STAGES[0]), 320);
+    }
 }
